@@ -208,6 +208,8 @@ def _apply_unit(repo: str, header: str, body_lines: List[str], tpl_name: str) ->
                 sections.append(("for2while", m.group(1), [kvs.get("seq", "$iter"), kvs.get("elem", "&$s[$i]")]))
             elif d.startswith("ret:"):
                 sections.append(("ret", d[4:].strip(), []))
+            elif d.startswith("tail:"):
+                sections.append(("tail", d[5:].strip(), []))
             elif d.startswith("region"):
                 region = _parse_kv(d[6:])
                 region["_raw"] = d
@@ -277,7 +279,8 @@ def _apply_unit(repo: str, header: str, body_lines: List[str], tpl_name: str) ->
         info.line_start = src.count("\n", 0, base_off) + 1
         info.line_end = src.count("\n", 0, fn.body_open + 1 + b) + 1
         info.item += " [region]"
-        body = "{\n" + region_text.rstrip() + "\n}"
+        tails = [arg for kind, arg, lines in sections if kind == "tail"]
+        body = "{\n" + region_text.rstrip() + "\n" + "\n".join(tails) + ("\n" if tails else "") + "}"
         item_text = region_text
     info.sha256 = hashlib.sha256(item_text.encode()).hexdigest()
     info.orig_text = item_text
